@@ -57,6 +57,7 @@ type Stats struct {
 	Obligations, Discharged        int
 	ConcreteAsserts                int
 	Unknown                        int
+	SecondOpinions                 int // queries the primary solver could not decide, decided by another solver
 	AssumeFailed                   int
 	Completed                      int // paths that ran to the end of the harness
 	Diverged                       int
@@ -324,6 +325,52 @@ func (e *Explorer) worker(w int) error {
 	}
 }
 
+// secondOpinion re-asks a query the primary solver answered "unknown" to another solver
+// (a fresh context: every conjunct of the path prefix plus the extra assertions).
+func (e *Explorer) secondOpinion(fb **smt.Solver, vars []*term.Term, conj []*term.Term) (smt.Result, map[string]uint64) {
+	kinds := []string{"z3", "z3-new"}
+	if e.spec.Solver == "z3" {
+		kinds = []string{"cvc5-int", "z3-new"}
+	}
+	for _, kind := range kinds {
+		if *fb == nil || (*fb).Kind != kind {
+			if *fb != nil {
+				(*fb).Close()
+			}
+			s, err := smt.New(kind, e.Timeout)
+			if err != nil {
+				continue
+			}
+			*fb = s
+		}
+		s := *fb
+		pr := term.NewPrinter()
+		var sb strings.Builder
+		sb.WriteString("(push 1)\n")
+		for _, v := range vars {
+			pr.Define(&sb, v)
+		}
+		for _, c := range conj {
+			pr.Define(&sb, c)
+			sb.WriteString("(assert " + pr.Ref(c) + ")\n")
+		}
+		s.Send(sb.String())
+		r, err := s.Check()
+		var m map[string]uint64
+		if err == nil && r == smt.Sat {
+			m, err = s.Model(vars)
+		}
+		s.Send("(pop 1)\n")
+		if err == nil && r != smt.Unknown {
+			e.mu.Lock()
+			e.stats.SecondOpinions++
+			e.mu.Unlock()
+			return r, m
+		}
+	}
+	return smt.Unknown, nil
+}
+
 func condOf(tb *term.Builder, r interp.Record) *term.Term {
 	if r.Taken {
 		return r.Cond
@@ -493,10 +540,21 @@ func (e *Explorer) process(solver *smt.Solver, it *item) ([]*item, error) {
 	oblIdx := 0
 	obls := res.Obligations
 	allVars := func() []*term.Term { return tb.Vars }
-	modelInputs := func() (map[string]uint64, error) {
-		m, err := solver.Model(allVars())
-		if err != nil {
-			return nil, err
+	var asserted []*term.Term
+	var fallback *smt.Solver
+	defer func() {
+		if fallback != nil {
+			fallback.Close()
+		}
+	}()
+	modelInputsFrom := func(given map[string]uint64) (map[string]uint64, error) {
+		m := given
+		if m == nil {
+			var err error
+			m, err = solver.Model(allVars())
+			if err != nil {
+				return nil, err
+			}
 		}
 		in := map[string]uint64{}
 		for k, v := range it.inputs {
@@ -543,6 +601,10 @@ func (e *Explorer) process(solver *smt.Solver, it *item) ([]*item, error) {
 			e.mu.Lock()
 			st.Obligations++
 			e.mu.Unlock()
+			var fbModel map[string]uint64
+			if err == nil && r == smt.Unknown {
+				r, fbModel = e.secondOpinion(&fallback, allVars(), append(append([]*term.Term{}, asserted...), tb.Not(o.Cond)))
+			}
 			switch {
 			case err != nil || r == smt.Unknown:
 				e.mu.Lock()
@@ -554,7 +616,7 @@ func (e *Explorer) process(solver *smt.Solver, it *item) ([]*item, error) {
 				st.Discharged++
 				e.mu.Unlock()
 			case r == smt.Sat:
-				in, merr := modelInputs()
+				in, merr := modelInputsFrom(fbModel)
 				if merr != nil {
 					e.inconclusive("obligation %s: model error %v", o.Label, merr)
 				} else {
@@ -586,6 +648,14 @@ func (e *Explorer) process(solver *smt.Solver, it *item) ([]*item, error) {
 			e.mu.Lock()
 			st.Flips++
 			e.mu.Unlock()
+			var fbModel map[string]uint64
+			if err == nil && v == smt.Unknown {
+				extra := []*term.Term{tb.Not(c)}
+				for _, x := range excl[:max(len(excl)-1, 0)] {
+					extra = append(extra, tb.Not(tb.Eq(r.Sym, tb.BV(r.Sym.W, x))))
+				}
+				v, fbModel = e.secondOpinion(&fallback, allVars(), append(append([]*term.Term{}, asserted...), extra...))
+			}
 			switch {
 			case err != nil || v == smt.Unknown:
 				e.mu.Lock()
@@ -593,7 +663,7 @@ func (e *Explorer) process(solver *smt.Solver, it *item) ([]*item, error) {
 				e.mu.Unlock()
 				e.inconclusive("flip at %s: solver answered unknown (%v)", instrSite(e.P.Prog, r.Instr), err)
 			case v == smt.Sat:
-				in, merr := modelInputs()
+				in, merr := modelInputsFrom(fbModel)
 				if merr != nil {
 					e.inconclusive("flip model error: %v", merr)
 				} else {
@@ -625,6 +695,7 @@ func (e *Explorer) process(solver *smt.Solver, it *item) ([]*item, error) {
 			solver.Send("(pop 1)\n")
 		}
 		solver.Send("(assert " + emit(c) + ")\n")
+		asserted = append(asserted, c)
 	}
 	return out, nil
 }
